@@ -25,6 +25,12 @@ def enriched():
     L.append(Line([], "empty"))
     L.append(Line(norm.decl_pieces("static const char", 1, "g_name", "", 21, depth=0, cls="global")
                   + [SP(), P("assign", "="), SP()] + S('"norm"') + [P("semi", ";"), P("tab", "\t"), P("cmt", "// the name")], "global"))
+    # literals inside the dimension of a declaration (a place where a rule looks at every token between the brackets)
+    L.append(Line(norm.decl_pieces("static int", 0, "g_tally", "", 21, depth=0, cls="global")
+                  + [P("lb", "[")] + CH("'z'") + [SP(), P("binop", "-"), SP()] + CH("'a'") + [SP(), P("binop", "+"), SP()] + C("1")
+                  + [P("rb", "]"), P("semi", ";")], "global"))
+    L.append(Line(norm.decl_pieces("static char", 0, "g_copy", "", 21, depth=0, cls="global")
+                  + [P("lb", "["), P("kw", "sizeof"), P("lp", "(")] + S('"hello"') + [P("rp", ")"), P("rb", "]"), P("semi", ";")], "global"))
     L.append(Line([], "empty"))
     L.append(Line([P("cmt", "/*")], "comment"))
     L.append(Line([P("cmt", "** returns the length of s")], "comment"))
@@ -49,15 +55,15 @@ def enriched():
     out.append({"ftype": ".c", "fname": fname, "pre": pre, "lines": L, "text": norm.render(pre + L), "ids": ("enriched",)})
     # a violating variant: comments inside the body (V52/V53 style) and a string in a misindented line
     L2 = [l.copy() for l in L]
-    L2.insert(13, Line(IND(1) + [P("cmt", "// inside body")], "comment", 1))
-    L2[14] = Line(L2[14].pieces + [SP(), P("cmt", "/* eol */")], "simple", 1)
-    L2[17] = Line([P("sp", "  ")] + L2[17].pieces[1:], "simple", 2)
+    L2.insert(15, Line(IND(1) + [P("cmt", "// inside body")], "comment", 1))
+    L2[16] = Line(L2[16].pieces + [SP(), P("cmt", "/* eol */")], "simple", 1)
+    L2[19] = Line([P("sp", "  ")] + L2[19].pieces[1:], "simple", 2)
     out.append({"ftype": ".c", "fname": fname, "pre": pre, "lines": L2, "text": norm.render(pre + L2), "ids": ("enriched-bad",)})
     # wide comments: as wide as a line of the 42 header, at file level and indented inside a body (too long there)
     L3 = [l.copy() for l in L]
     L3.insert(7, Line([P("cmt", "/*" + " wide" + "x" * 69 + "  */")], "comment"))
-    L3.insert(14, Line(IND(1) + [P("cmt", "/*" + " deep" + "y" * 69 + "  */")], "comment", 1))
-    L3.insert(15, Line(IND(1) + [P("cmt", "//" + " z" * 38)], "comment", 1))
+    L3.insert(16, Line(IND(1) + [P("cmt", "/*" + " deep" + "y" * 69 + "  */")], "comment", 1))
+    L3.insert(17, Line(IND(1) + [P("cmt", "//" + " z" * 38)], "comment", 1))
     out.append({"ftype": ".c", "fname": fname, "pre": pre, "lines": L3, "text": norm.render(pre + L3), "ids": ("enriched-wide",)})
     # expression-rich files: every atom kind of the expression grammar in a statement of its own
     from . import c01_expr as ce
